@@ -2,6 +2,7 @@ package sym
 
 import (
 	"fmt"
+	"os"
 	"sort"
 	"strings"
 	"sync"
@@ -151,6 +152,7 @@ type Exec struct {
 	env       envState
 	dropped   int
 	sample    string
+	facts     map[uint64][]fact
 	deferFrame []*frame
 	lockHook  func(name string, recv Value)
 }
@@ -218,19 +220,111 @@ func shortFn(fn *ssa.Function) string {
 	return s
 }
 
+type fact struct {
+	t *term.T
+	v bool
+}
+
+// learn records the truth of c (and of its obvious sub-formulas).
+func (ex *Exec) learn(c *term.T, v bool) {
+	if c.IsConst() {
+		return
+	}
+	switch {
+	case c.Op == term.OBNot:
+		ex.learn(c.A[0], !v)
+		return
+	case c.Op == term.OBAnd && v:
+		ex.learn(c.A[0], true)
+		ex.learn(c.A[1], true)
+	case c.Op == term.OBOr && !v:
+		ex.learn(c.A[0], false)
+		ex.learn(c.A[1], false)
+	}
+	ex.facts[c.H] = append(ex.facts[c.H], fact{c, v})
+	// interval refinement from simple comparisons with constants
+	switch c.Op {
+	case term.OUlt:
+		a, b := c.A[0], c.A[1]
+		if v {
+			if a.IsConst() && a.C != term.Mask(a.W) {
+				term.Refine(b, a.C+1, term.Mask(b.W))
+			}
+			if b.IsConst() && b.C > 0 {
+				term.Refine(a, 0, b.C-1)
+			}
+		} else {
+			if a.IsConst() {
+				term.Refine(b, 0, a.C)
+			}
+			if b.IsConst() {
+				term.Refine(a, b.C, term.Mask(a.W))
+			}
+		}
+	case term.OEq:
+		if v && c.A[0].W != 0 {
+			if c.A[1].IsConst() {
+				term.Refine(c.A[0], c.A[1].C, c.A[1].C)
+			} else if c.A[0].IsConst() {
+				term.Refine(c.A[1], c.A[0].C, c.A[0].C)
+			}
+		}
+	}
+}
+
+// known reports whether the truth of c is already implied syntactically by the path condition.
+func (ex *Exec) known(c *term.T) (bool, bool) {
+	neg := false
+	for c.Op == term.OBNot {
+		c = c.A[0]
+		neg = !neg
+	}
+	for _, f := range ex.facts[c.H] {
+		if term.Equal(f.t, c) {
+			return f.v != neg, true
+		}
+	}
+	return false, false
+}
+
+func (ex *Exec) addPC(c *term.T) {
+	ex.pc = append(ex.pc, c)
+	ex.learn(c, true)
+}
+
+var traceQ = os.Getenv("VERIF_TRACEQ") != ""
+var paranoid = os.Getenv("VERIF_PARANOID") != ""
+
+func (ex *Exec) checkInv(where string) {
+	if !paranoid || ex.pos < len(ex.prefix) {
+		return
+	}
+	ev := term.NewEvaluator(ex.model.Clone())
+	for i, c := range ex.pc {
+		if ev.Eval(c) == 0 {
+			fmt.Printf("PARANOID %s: pc[%d] = %s false under model %v\n decisions=%v prefix=%v\n", where, i, c, ex.model.Syms, ex.decisions, ex.prefix)
+			panic("paranoid")
+		}
+	}
+}
+
 // Branch decides a symbolic condition, forking the exploration.
 func (ex *Exec) Branch(c *term.T) bool {
 	if c.IsConst() {
 		return c.C != 0
 	}
+	if v, ok := ex.known(c); ok {
+		return v
+	}
+	defer ex.checkInv("branch")
 	if ex.pos < len(ex.prefix) {
 		d := ex.prefix[ex.pos] != 0
 		ex.pos++
 		ex.decisions = append(ex.decisions, b2i(d))
 		if d {
-			ex.pc = append(ex.pc, c)
+			ex.addPC(c)
 		} else {
-			ex.pc = append(ex.pc, term.BNot(c))
+			ex.addPC(term.BNot(c))
 		}
 		return d
 	}
@@ -243,6 +337,9 @@ func (ex *Exec) Branch(c *term.T) bool {
 	}
 	q := append(append([]*term.T(nil), ex.pc...), other)
 	r, m := ex.solver.Check(q, true)
+	if traceQ {
+		fmt.Printf("Q branch %-5s %s  @%s\n", r, other, ex.site())
+	}
 	switch r {
 	case smt.Sat:
 		np := append(append([]uint64(nil), ex.decisions...), b2i(!mv))
@@ -253,9 +350,9 @@ func (ex *Exec) Branch(c *term.T) bool {
 	ex.decisions = append(ex.decisions, b2i(mv))
 	ex.pos++
 	if mv {
-		ex.pc = append(ex.pc, c)
+		ex.addPC(c)
 	} else {
-		ex.pc = append(ex.pc, other)
+		ex.addPC(term.BNot(c))
 	}
 	return mv
 }
@@ -295,15 +392,22 @@ func (ex *Exec) Assume(c *term.T) {
 		}
 		return
 	}
+	defer ex.checkInv("assume")
+	if v, ok := ex.known(c); ok {
+		if !v {
+			panic(pathEnd{kind: endInfeasible})
+		}
+		return
+	}
 	if ex.evalBool(c) {
-		ex.pc = append(ex.pc, c)
+		ex.addPC(c)
 		return
 	}
 	q := append(append([]*term.T(nil), ex.pc...), c)
 	r, m := ex.solver.Check(q, true)
 	switch r {
 	case smt.Sat:
-		ex.pc = q
+		ex.addPC(c)
 		ex.setModel(m)
 	case smt.Unsat:
 		panic(pathEnd{kind: endInfeasible})
@@ -405,11 +509,18 @@ func (ex *Exec) Assert(c *term.T, label string) {
 		ex.report(label, ex.repoSite(), "assertion false on feasible path", ex.model.Clone())
 		panic(pathEnd{kind: endViolation})
 	}
+	if v, ok := ex.known(c); ok && v {
+		ex.proved[label]++
+		return
+	}
 	if !ex.evalBool(c) {
 		ex.report(label, ex.repoSite(), "assertion violated: "+c.String(), ex.model.Clone())
 	} else {
 		q := append(append([]*term.T(nil), ex.pc...), term.BNot(c))
 		r, m := ex.solver.Check(q, true)
+		if traceQ {
+			fmt.Printf("Q assert %-5s %s  [%s]\n", r, c, label)
+		}
 		switch r {
 		case smt.Sat:
 			// make sure the recorded nondet values come from the violating model
@@ -464,7 +575,13 @@ func Explore(p *Program, cfg *Config) *Result {
 func (e *Explorer) worker() {
 	kinds := e.cfg.Solvers
 	if len(kinds) == 0 {
-		kinds = []smt.Kind{smt.Z3, smt.CVC5Int}
+		kinds = []smt.Kind{smt.CVC5, smt.Z3, smt.CVC5Int}
+		if v := os.Getenv("VERIF_SOLVERS"); v != "" {
+			kinds = nil
+			for _, k := range strings.Split(v, ",") {
+				kinds = append(kinds, smt.Kind(k))
+			}
+		}
 	}
 	solver := smt.NewPortfolio(e.cfg.SolverMs, kinds...)
 	defer func() {
@@ -553,7 +670,7 @@ func (e *Explorer) merge(ex *Exec) {
 func (e *Explorer) runPath(solver *smt.Portfolio, it WorkItem) (ex *Exec) {
 	ex = &Exec{P: e.P, cfg: e.cfg, solver: solver, prefix: it.Prefix,
 		globals: map[*ssa.Global]*Value{}, initDone: map[*ssa.Package]bool{}, fresh: map[string]int{},
-		hits: map[string]int{}, proved: map[string]int{}, funcs: map[string]int64{}}
+		hits: map[string]int{}, proved: map[string]int{}, funcs: map[string]int64{}, facts: map[uint64][]fact{}}
 	ex.setModel(it.Model)
 	ex.env.init()
 	end := "return"
@@ -574,7 +691,19 @@ func (e *Explorer) runPath(solver *smt.Portfolio, it WorkItem) (ex *Exec) {
 					msg = p.msg
 					ex.report(ex.cfg.Harness+"/no-panic", p.site, "uncaught panic: "+p.msg, ex.model.Clone())
 				default:
-					panic(r)
+					site := ex.site()
+					if ee, ok := r.(engineErr); ok {
+						if len(ee.stack) > 0 {
+							site = ee.stack[0]
+						}
+						if os.Getenv("VERIF_DEBUG") != "" {
+							fmt.Printf("ENGINE ERROR: %v\nssa stack:\n  %s\n%s\n", ee.orig, strings.Join(ee.stack, "\n  "), ee.gostack)
+						}
+						r = ee.orig
+					}
+					end = "engine-error"
+					msg = fmt.Sprint(r)
+					ex.inconc = append(ex.inconc, fmt.Sprintf("engine error in %s: %v", site, r))
 				}
 			}
 		}()
